@@ -120,8 +120,16 @@ exec(open(os.path.join(os.path.dirname(os.path.abspath(__file__)), 'c15_pratt.py
 
 # native replay: parse the same operator sequence as text with both real parsers
 var2sym = {v: k for k, v in sym2var.items()}
+SYM_PREFIX = {'Minus': '-', 'Not': 'NOT', 'Bang': '!', 'Tilde': '~'}
 for v in ck.violations:
     w = v['witness']
+    if 'prefixes' in w:
+        text = ' '.join(SYM_PREFIX[p_] for p_ in w['prefixes']) + ' 0'
+        rep = Replay.call({'op': 'parse_grouping', 'text': text})
+        v['native'] = dict(rep, text=text)
+        want = {'unary': PREFIX_OP[w['prefixes'][0]], 'of': {'unary': PREFIX_OP[w['prefixes'][1]], 'of': 0}}
+        v['replayed'] = rep.get('expr_parser') != want or rep.get('stmt_parser') != want
+        continue
     if 'ops' not in w:
         continue
     pre = w.get('prefix')
